@@ -5,7 +5,8 @@
    differential of harness/props/c19.py.  Only property theorems here; proofs are in Struct/AliasProofs.v. *)
 From Coq Require Import ZArith String List Bool.
 Import ListNotations.
-From TP Require Import Base.PyVal Struct.Alias Struct.AliasProofs Struct.AliasIntake Struct.AliasIntakeProofs Gen.AliasSites.
+From TP Require Import Base.PyVal Struct.Alias Struct.AliasProofs Struct.AliasIntake Struct.AliasIntakeProofs Gen.AliasSites
+     Gen.AliasTables Struct.AliasIntakeToday.
 
 (* the full statement: EVERY operation, whatever its summary *)
 Definition C19_statement : Prop :=
@@ -93,6 +94,18 @@ Theorem C19_immutable_field_exemption_leaks : forall sv tb y,
     retains sv tb OwnImmField false TAny (witness_of y) = true.
 Proof. exact immfield_leaks. Qed.
 
+(* The tables GENERATED from the current source (Gen/AliasTables.v, Gen/AliasSites.v) satisfy the hypotheses of
+   the two safety theorems: an ImmutableStructure, and a field declared immutable, keep nothing of the value they
+   are given -- for ALL declared types and ALL values (wrappers of other structures' fields, tuples holding
+   lists, untyped maps ... included).  Re-checked by the kernel on every run. *)
+Theorem C19_immutable_structure_intake_safe_now : forall deser t v,
+    retains alias_sites copy_tables OwnImmStruct deser t v = false.
+Proof. exact immstruct_safe_today. Qed.
+
+Theorem C19_immutable_field_intake_safe_now : forall deser t v,
+    retains alias_sites copy_tables OwnImmField deser t v = false.
+Proof. exact immfield_safe_today. Qed.
+
 (* Map fields are skipped by Field.__set__'s copy; unless _DictStruct.__init__ copies, an untyped ImmutableMap shares
    the caller's values *)
 Theorem C19_immutable_map_leaks : forall sv tb deser,
@@ -120,6 +133,8 @@ Print Assumptions C19_immutable_structure_exemption_leaks.
 Print Assumptions C19_immutable_field_intake_safe.
 Print Assumptions C19_immutable_field_exemption_leaks.
 Print Assumptions C19_immutable_map_leaks.
+Print Assumptions C19_immutable_structure_intake_safe_now.
+Print Assumptions C19_immutable_field_intake_safe_now.
 Print Assumptions C19_plain_typed_intake_safe.
 
 (* non-vacuity: a separated world, an operation with three copying steps (store an argument, return a
@@ -135,8 +150,8 @@ Proof. exact nonvacuous. Qed.
 (* the sites of the CURRENT source tree the model regards as unsafe (evaluated by the harness each run) *)
 Definition C19_unsafe_sites_now := unsafe_sites alias_sites.
 
-(* non-vacuity of the intake theorems: a table set satisfying every hypothesis (what the library has once the two
-   open findings are fixed), a nested type and a value full of mutable objects under tuples; and the pinned tree's
+(* non-vacuity of the intake theorems: a table set satisfying every hypothesis (the library's, since a wrapper is
+   exempt only when it is itself immutable and _DictStruct.__init__ copies), a nested type and a value full of mutable objects under tuples; and the pinned tree's
    tables with `tuple` added to Structure.__setattr__'s exemptions, on which the same value leaks *)
 Definition tables_ok : ctables :=
   {| t_setattr := [YScalar; YImmStruct; YImmWrapper]; t_setattr_copies := true;
